@@ -54,6 +54,8 @@ var catalogue = []struct {
 	{"held-operations", []step{{D, ribx.NHEntry(1, "1.1.1.1")}, {D, ribx.NHGEntry(1, 0, m(1, 1))}, {D, ribx.V4Entry("10.0.0.0/8", 1, "", nil)}, {D, ribx.V4Entry("192.168.0.0/16", 7, "", nil)}, {V, ribx.NHGEntry(5, 0, m(5, 1))}}},
 	{"all-kinds-both-instances", []step{{D, ribx.NHEntry(1, "1.1.1.1")}, {D, ribx.NHEntry(2, "2.2.2.2")}, {D, ribx.NHGEntry(1, 0, m(1, 1), m(2, 2))}, {D, ribx.V4Entry("10.0.0.0/8", 1, "", []byte{1})}, {D, ribx.V6Entry("2001:db8::/32", 1, "", nil)}, {D, ribx.MPLSEntry(100, 1, "", nil)},
 		{V, ribx.NHEntry(1, "3.3.3.3")}, {V, ribx.NHGEntry(1, 0, m(1, 1))}, {V, ribx.V4Entry("10.0.0.0/8", 1, "", nil)}, {V, ribx.V6Entry("2001:db8::/32", 1, D, nil)}, {V, ribx.MPLSEntry(100, 1, "", nil)}}},
+	{"D-v6+mpls->V-group", []step{{V, ribx.NHEntry(1, "2.2.2.2")}, {V, ribx.NHGEntry(1, 0, m(1, 1))}, {D, ribx.V6Entry("2001:db8::/32", 1, V, nil)}, {D, ribx.MPLSEntry(100, 1, V, nil)}}},
+	{"V-mpls->D-group", []step{{D, ribx.NHEntry(1, "1.1.1.1")}, {D, ribx.NHGEntry(1, 0, m(1, 1))}, {V, ribx.MPLSEntry(100, 1, D, nil)}}},
 	{"both-directions", []step{{D, ribx.NHEntry(1, "1.1.1.1")}, {D, ribx.NHGEntry(1, 0, m(1, 1))}, {V, ribx.NHEntry(1, "3.3.3.3")}, {V, ribx.NHGEntry(1, 0, m(1, 1))}, {D, ribx.V4Entry("10.0.0.0/8", 1, V, nil)}, {V, ribx.V4Entry("10.0.0.0/8", 1, D, nil)}}},
 }
 
